@@ -70,6 +70,17 @@ pub fn run() -> i32 {
     for f in [0.0, 1.0, 0.5, 1e15, 1e16, 9007199254740992.0, 0.1 + 0.2, 1e100, 2.0000000000018, -0.0, 1e-5, 123456.789e3, 1.0 / 3.0] {
         println!("  {:?} -> {}", f, refsylt::float_text(f));
     }
+    if let Outcome::Ok(lua) = &out {
+        let t0 = std::time::Instant::now();
+        let r = crate::luarun::run_lua(lua, 1_000_000);
+        println!("lua: {:?} ({} us)", r, t0.elapsed().as_micros());
+        let t0 = std::time::Instant::now();
+        for _ in 0..100 {
+            let _ = crate::luarun::run_lua(lua, 1_000_000);
+        }
+        println!("100 runs: {} us each", t0.elapsed().as_micros() / 100);
+        println!("traces equal: {}", r.out == t.out);
+    }
     if out.is_ok() { 0 } else { 2 }
 }
 
